@@ -19,7 +19,7 @@ THEOREMS = [
     "C04_revocation_paths_accept", "C04_revocation_needs_revkey",
     "C05_local_paths_accept", "C05_remote_paths_accept",
     "C05_success_needs_preimage", "C05_timeout_needs_locktime", "C05_delay_is_enforced",
-    "C05_funding_spend_accepts", "C05_csv_blocks_sufficient",
+    "C05_funding_spend_accepts", "C05_csv_blocks_sufficient", "C0405_witness_roles",
 ]
 MODULE = "LV.Script.Props"
 TARGETS = ["theories/Gen/GenScripts.vo", "theories/Script/Exec.vo",
